@@ -96,6 +96,8 @@ func NewWorld(rec *core.Recorder, wrapListener func(net.Listener) net.Listener) 
 		if tr, ok := p.GetRoundTripper().(*http.Transport); ok {
 			tr.TLSClientConfig = &tls.Config{InsecureSkipVerify: true}
 		}
+		// after SetDial, which only reaches a bare *http.Transport
+		p.SetRoundTripper(cloningRT{p.GetRoundTripper()})
 		p.SetRequestModifier(w.Mods)
 		p.SetResponseModifier(w.Mods)
 		if withMITM {
@@ -119,6 +121,19 @@ func NewWorld(rec *core.Recorder, wrapListener func(net.Listener) net.Listener) 
 		return nil, err
 	}
 	return w, nil
+}
+
+// cloningRT behaves like the wrapping transports found in the wild (oauth2.Transport and the
+// like): for every other exchange it sends a clone of the request, so the response it returns
+// refers to the clone and not to the request the proxy handed in. The proxy has to present the
+// response modifier with the request its request modifier saw whatever the transport does (C02).
+type cloningRT struct{ base http.RoundTripper }
+
+func (c cloningRT) RoundTrip(req *http.Request) (*http.Response, error) {
+	if idOf(req)%2 == 0 {
+		return c.base.RoundTrip(req)
+	}
+	return c.base.RoundTrip(req.Clone(req.Context()))
 }
 
 // UseRecorder switches every event source of the environment to a new recorder.
